@@ -18,10 +18,27 @@ Why(c) ==
           ELSE IF ~IsValidNorm(c.sc, g, cs, c.v, res) THEN "not-a-chain-product"
           ELSE IF res # Canon(c.sc, g, c.order, c.v) THEN "differs-from-model-bfs"
           ELSE "ok"
+\* ---- kind "days": journal.ComputePrices over a sequence of days (price declarations per day);
+\* on a day with declarations the normalised prices are those of the graph so far, otherwise they
+\* are carried forward.  c.days : Seq([decls, out]); out = the day's Normalized map.
+RECURSIVE DaysOK(_, _, _, _, _)
+DaysOK(c, cs, g, prev, k) ==
+  IF k > Len(c.days) THEN "ok"
+  ELSE LET d == c.days[k]
+           g2 == InsertAll(c.sc, g, d.decls)
+           want == IF d.decls # << >> THEN Canon(c.sc, g2, c.order, c.v) ELSE prev
+       IN IF d.out # want THEN
+             (IF d.decls # << >> /\ ~IsValidNorm(c.sc, g2, cs, c.v, d.out) THEN "day-prices-not-valid-for-the-declarations-so-far"
+              ELSE IF d.decls = << >> THEN "prices-not-carried-forward" ELSE "day-prices-differ-from-model")
+          ELSE DaysOK(c, cs, g2, want, k + 1)
+WhyDays(c) == LET cs == RangeOf(c.order) IN
+  DaysOK(c, cs, EmptyGraph(cs), [x \in cs |-> NoPrice], 1)
+WhyAny(c) == IF c.kind = "days" THEN WhyDays(c) ELSE Why(c)
+
 Init == i = 1 /\ failed = << >>
 Next == /\ i <= Len(Cases)
         /\ i' = i + 1
-        /\ failed' = LET w == Why(Cases[i]) IN IF w = "ok" THEN failed ELSE Append(failed, [id |-> Cases[i].id, why |-> w])
+        /\ failed' = LET w == WhyAny(Cases[i]) IN IF w = "ok" THEN failed ELSE Append(failed, [id |-> Cases[i].id, why |-> w])
 Spec == Init /\ [][Next]_<<i, failed>>
 Report == i <= Len(Cases) \/ PrintT("FAILED " \o ToJson(failed))
 =============================================================================
